@@ -309,7 +309,8 @@ def txRun (tx : T) (s0 : St K V) (m : Vol C V) : TxRes D × St K V × Vol C V :=
   | some _ =>
     let r1 := (hs.deliver tx).run cfg rv.2.1 rv.2.2 e
     let r2 := (hs.fee tx s0.gas.consumed).run cfg r1.2.1 r1.2.2 e
-    ({ ok := r1.1.isSome && r2.1.isSome, data := r1.1, gasUsed := r2.1.getD 0 }, r2.2.1, r2.2.2)
+    ({ ok := r1.1.isSome && r2.1.isSome && !gasOut r2.2.1.gas, data := r1.1, gasUsed := r2.1.getD 0 },
+     r2.2.1, r2.2.2)
 
 theorem txRun_pres (tx : T) (s0 : St K V) (m : Vol C V) : Pres s0 (txRun cfg hs e tx s0 m).2.1 := by
   unfold txRun
@@ -346,7 +347,10 @@ theorem txRun_shift (hb : GasBlind cfg hs) (tx : T) (d : Int) (s s' : St K V) (m
     have hf := hb.fee tx s.gas.consumed d _ _
       ((hs.deliver tx).run cfg ((hs.validate tx).run cfg s m e).2.1
         ((hs.validate tx).run cfg s m e).2.2 e).2.2 e sh1
-    rw [v1, e1, hf.1, hf.2.2]
+    have ho := hb.out tx s.gas.consumed d _ _
+      ((hs.deliver tx).run cfg ((hs.validate tx).run cfg s m e).2.1
+        ((hs.validate tx).run cfg s m e).2.2 e).2.2 e sh1
+    rw [v1, e1, hf.1, hf.2.2, ho]
     exact ⟨rfl, hf.2.1, rfl⟩
 
 /-- the index-miss branch of `deliverTx` -/
